@@ -268,7 +268,7 @@ func ConnectionInterface(config *ConnectionInterfaceConfig) *graphql.InterfaceTy
 				Cost: func(ctx graphql.FieldCostContext) graphql.FieldCost {
 					return graphql.FieldCost{
 						Resolver:   0,
-						Multiplier: ctx.Context.Value(maxEdgeCountContextKey).(int),
+						Multiplier: maxEdgeCount(ctx.Context),
 					}
 				},
 			},
@@ -374,6 +374,14 @@ type maxEdgeCountContextKeyType int
 
 var maxEdgeCountContextKey maxEdgeCountContextKeyType
 
+// maxEdgeCount returns the count that defaultConnectionCost left in the cost context. A field that
+// hands out a connection type without using that cost function leaves none: its edges are then
+// costed without a multiplier rather than by a failed assertion.
+func maxEdgeCount(ctx context.Context) int {
+	n, _ := ctx.Value(maxEdgeCountContextKey).(int)
+	return n
+}
+
 func resolveEdgeSliceLen(edgeSlice any) (any, error) {
 	edgeSliceValue := reflect.ValueOf(edgeSlice)
 	if edgeSliceValue.Kind() != reflect.Slice {
@@ -436,7 +444,7 @@ func Connection(config *ConnectionConfig) *graphql.FieldDefinition {
 				Cost: func(ctx graphql.FieldCostContext) graphql.FieldCost {
 					return graphql.FieldCost{
 						Resolver:   0,
-						Multiplier: ctx.Context.Value(maxEdgeCountContextKey).(int),
+						Multiplier: maxEdgeCount(ctx.Context),
 					}
 				},
 				Description: edgesDesc,
